@@ -272,6 +272,17 @@ def eval_accuracy(spec):
     at_nuc = np.asarray(V(np.array(centres(spec["grid"]))), dtype=float)
     if not np.all(np.isfinite(at_nuc)):
         return False, "non-finite potential at a grid centre"
+    # arbitrary points include points very close to (not on) a nucleus: with the origin node in the mesh u(0) = 0 and u/r is smooth there, so the
+    # potential a few 1e-9 bohr from the centre agrees with the potential 1e-6 bohr from it (no oracle needed: continuity of the returned function)
+    if spec["solver"] in ("bvp", "robust") and spec.get("options", {}).get("include_origin", True) and not anisotropic(spec):
+        u = np.array([0.6, 0.0, 0.8])
+        for c in centres(spec["grid"]):
+            c = np.asarray(c, dtype=float)
+            near = np.asarray(V(np.array([c + 3e-9 * u, c + 1e-6 * u, c + 1e-4 * u])), dtype=float)
+            scale = max(1.0, float(np.max(np.abs(near))))
+            if not (np.all(np.isfinite(near)) and abs(near[0] - near[1]) <= 1e-3 * scale + 10 * abs(near[1] - near[2])):
+                return False, (f"potential 3e-9 bohr from the centre {c.tolist()} is {near[0]:.8g}, but {near[1]:.8g} at 1e-6 bohr and {near[2]:.8g} at 1e-4 bohr "
+                               f"(the returned function is not continuous towards the nucleus)")
     return True, None
 
 
